@@ -140,9 +140,22 @@ class World:
         accepted = [0]
         events = [0]
 
+        held = []   # (array handed to the library, its values at that time): the caller keeps its arrays and may hand one over again
+
         def payload(seed):
+            if seed % 4 == 0 and held:
+                # the caller adds an array it has added before (the same object, untouched by the caller)
+                ctx.probe("same_array_handed_over_again")
+                return held[-1][0]
             g = numpy.random.Generator(numpy.random.PCG64(seed))
-            return (g.integers(-9, 10, size=(nx, ny)) + 1j * g.integers(-9, 10, size=(nx, ny))).astype(numpy.complex128)
+            arr = (g.integers(-9, 10, size=(nx, ny)) + 1j * g.integers(-9, 10, size=(nx, ny))).astype(numpy.complex128)
+            held.append((arr, arr.copy()))
+            return arr
+
+        def check_held(what):
+            for arr, pristine in held:
+                check(numpy.array_equal(arr, pristine), "caller-array-unchanged",
+                      lambda: "after %s: an array the caller added earlier was changed by the library" % what)
 
         # -------------------------------------------------- model: views
         def served_views():
@@ -282,6 +295,7 @@ class World:
             return vs
 
         def check_views(what):
+            check_held(what)
             check(resp.storage_resolution == st["S"], "storage-resolution",
                   lambda: "after %s: storage_resolution %r, model %r" % (what, resp.storage_resolution, st["S"]))
             for v in ordered_views():
